@@ -416,6 +416,16 @@ impl CoreDocument {
     if self.resolve_method(method.id(), None).is_some() || self.service().query(method.id()).is_some() {
       return Err(Error::MethodInsertionError);
     }
+    // A method reference can be present without the method it refers to (e.g. a reference to a method of another
+    // DID document); the lookup above does not see such a reference. Embedding a method under that identifier would
+    // alias the reference and yield a document that `check_id_constraints` (and hence deserialization) rejects.
+    if scope != MethodScope::VerificationMethod
+      && self
+        .verification_relationships()
+        .any(|method_ref| method_ref.id() == method.id())
+    {
+      return Err(Error::MethodInsertionError);
+    }
     match scope {
       MethodScope::VerificationMethod => self.data.verification_method.append(method),
       MethodScope::VerificationRelationship(MethodRelationship::Authentication) => {
